@@ -462,20 +462,24 @@ class NF(object):
         elif op == "f":
             name = t.args[0]
             if name == "exp":
+                # exp is a homomorphism: exp(sum_m c_m * m / den) = prod_m exp(m / den)^(c_m).  Every monomial of the argument
+                # becomes its own positive atom carrying the rational coefficient as a (Puiseux) exponent, so that
+                # exp(a + b) and exp(a) * exp(b) get the same normal form.
                 u = self.nf(t.args[1])
                 if not u[0]:
                     r = (POLY_ONE, POLY_ONE)
                 else:
-                    cu = self.canon_rf(u)
-                    neg = (poly_scale(u[0], -1), u[1])
-                    cn = self.canon_rf(neg)
-                    if cn < cu:
-                        # exp(-u) = exp(u)^(-1): kept as a Laurent exponent of the (positive) atom, not as a denominator
-                        key = "e:" + cn
-                        self.atom(key, tm.mk_fn("exp", tm.mk_neg(t.args[1])))
-                        r = ({((key, lf_const(-1)),): Q(1)}, POLY_ONE)
-                    else:
-                        r = self.atom("e:" + cu, t)
+                    n, d = u
+                    lead = sorted(d.items(), key=lambda kv: repr(kv[0]))[0][1]
+                    n = poly_scale(n, 1 / lead)
+                    d = poly_scale(d, 1 / lead)
+                    r = (POLY_ONE, POLY_ONE)
+                    for m, c in sorted(n.items(), key=lambda kv: repr(kv[0])):
+                        one = ({m: Q(1)}, d)
+                        key = "e:" + self.canon_rf(one)
+                        if key not in self.atoms:
+                            self.atoms[key] = tm.mk_fn("exp", self.rf_to_term(one))
+                        r = self.rf_mul(r, ({((key, lf_const(c)),): Q(1)}, POLY_ONE))
             else:
                 key = "f:%s(%s)" % (name, ",".join(self.canon_rf(self.nf(a)) for a in t.args[1:]))
                 r = self.atom(key, t)
